@@ -243,11 +243,18 @@ func (descriptor *pmtDescriptor) IsIFrameProfile() bool {
 		indx := uint8(0)
 		for indx < num_partitions {
 			indx++
+			if offset >= len(descriptor.data) {
+				// the body ends before the announced partitions
+				return false
+			}
 			EBP_data_explicit_flag := 1 == uint8((descriptor.data[offset]&0x80)>>7)
 			representation_id_flag := 1 == uint8((descriptor.data[offset]&0x04)>>6)
 
 			if EBP_data_explicit_flag {
 				offset++
+				if offset >= len(descriptor.data) {
+					return false
+				}
 				if 0 == EBP_distance_width_minus_1 {
 					EBP_distance := uint8(descriptor.data[offset])
 					return 1 == EBP_distance
@@ -292,6 +299,9 @@ func (descriptor *pmtDescriptor) IsDolbyATMOS() bool {
 
 		start := uint8(2)
 		if bsid_flag {
+			if len(descriptor.data) < 3 {
+				return false
+			}
 			language_flag = 1 == uint8((descriptor.data[start]&0x80)>>7)   // 1 bit
 			language_flag_2 = 1 == uint8((descriptor.data[start]&0x40)>>6) // 1 bit
 			start++
